@@ -169,6 +169,10 @@ def oracle(ctx):
             if rnd.random() < 0.3:
                 text += '[Unit]\nDescription=x\n[Container]\n'
             text += f'{key}={v}\n'
+            r = rnd.random()
+            if r < 0.15:
+                # a repeated header of the same section with no assignment at all: not a reset
+                text += rnd.choice(['[Container]\n', '[Container]\n# only a comment\n\n', '[Unit]\n[Container]\n;c\n'])
         cases.append((kind, key, hist, text))
     ops = [f'convert\t0\t0\t{hx("/q/c.container")}\t{hx(t)}' for _, _, _, t in cases]
     io = ctx.impl(ops)
